@@ -549,3 +549,22 @@ COMMON_ASSUMPTIONS = [
     "np.random.* follow their documented contracts (randint in range, uniform in the closed interval, choice an index with p>0, normal any real); math/np shims are transparent on concrete values (checked by the transparency validation)",
     "claims hold within the stated bounds only (rounds, configurations, parameter grid); an assertion the solver answered 'unknown' is reported under not_covered and is not claimed",
 ]
+
+
+def replay_file(path):
+    """bin/check <id> --replay <file>: re-run a recorded counterexample on the unshimmed code"""
+    sys.path.insert(0, VERIF)
+    rec = json.load(open(path))
+    hmod = importlib.import_module("harness." + rec["harness"])
+    mods = shims.load_pyxab()
+    if hasattr(hmod, "setup"):
+        hmod.setup(mods)
+    res = replay_concrete(hmod, rec["cfg"], rec["inputs"], wall_s=getattr(hmod, "REPLAY_WALL_S", 60))
+    print("replay of %s on %s: status=%s" % (path, shims.src_root(), res["status"]))
+    print(" config:", rec["cfg"].get("name"), " failing check:", rec["label"], rec.get("exc") or "")
+    print(" inputs:", [(n, (float(int(v[0]) / int(v[1])) if isinstance(v, list) else v)) for n, k, v in rec["inputs"]][:40])
+    for f in res["failures"][:10]:
+        print(" concrete failure:", f)
+    ok = reproduces(res, rec["label"], rec.get("exc"))
+    print("REPRODUCED" if ok else "not reproduced")
+    return 1 if ok else 0
